@@ -63,6 +63,8 @@ type Contract struct {
 	Modifies []string
 	Loops    map[int]*LoopSpec
 	Trusted  bool
+	Inlines  []string // callees (by key) whose bodies are executed here instead of using their contracts
+	NoPrune  bool // explore every syntactic path without asking the solver whether it is feasible
 	RecBound *Clause // must hold for the arguments of every recursive call (bounds the recursion depth)
 	Enumerate []string
 	Inline   bool
@@ -158,6 +160,10 @@ func parseContractFile(P *Program, pkg *packages.Package, f *ast.File, name stri
 				}
 			case "enumerate":
 				cur.Enumerate = append(cur.Enumerate, rest)
+			case "inlines":
+				cur.Inlines = append(cur.Inlines, parseNameList(rest)...)
+			case "noprune":
+				cur.NoPrune = true
 			case "pure":
 				cur.Pure = true
 			case "trusted":
